@@ -128,6 +128,7 @@ pub fn tuples(thorough: bool) -> Vec<Tuple> {
         vec![("b.c-d_e", "x&y=z+w"), ("a", "é %?#@")],
         vec![("checksum", "SHA1:AB,md5:00ff"), ("z", "1")],
         vec![("K9", "/a/b")],
+        vec![("a_b", "1"), ("ab", "2"), ("a.b", "3"), ("a-b", "4"), ("a1", "5"), ("A2", "6"), ("a", "7")],
     ];
     let subs: Vec<Vec<&'static str>> = vec![vec![], vec!["s"], vec!["a b", "é#?", "c.d"], vec!["...", ".a", "%2e"]];
     let mut out = vec![];
